@@ -113,6 +113,7 @@ type c03Case struct {
 	PortOff   int      `json:"port_offset"` // requested port = P + offset; 99999 = port 0
 	Kind      string   `json:"transport"`
 	What      string   `json:"near_miss"`
+	NameWithPort string `json:"name_is_host_colon_port,omitempty"` // the name field carries this host, a colon and the grid port P
 }
 
 const placeholder = "{{ preferred_username }}"
@@ -163,7 +164,7 @@ func genC03Req(t *rapid.T, cfg c03Case) c03Case {
 		c.PortOff = 1
 	}
 	c.What = rapid.SampledFrom([]string{"exact", "exact", "exact", "port+1", "port-1", "port0", "embedded-nul", "double-nul", "no-nul", "prefix", "suffix", "superstring",
-		"other-user", "bracketed", "ipv6-variant", "surrogates", "high-byte-lookalike", "high-byte-lookalike", "odd-length", "over-long-size", "case", "empty"}).Draw(t, "what")
+		"other-user", "bracketed", "ipv6-variant", "surrogates", "high-byte-lookalike", "high-byte-lookalike", "name-with-port", "name-with-port", "odd-length", "over-long-size", "case", "empty"}).Draw(t, "what")
 	name := u16(host, true)
 	switch c.What {
 	case "port+1":
@@ -188,6 +189,17 @@ func genC03Req(t *rapid.T, cfg c03Case) c03Case {
 		}
 	case "superstring":
 		name = u16(host+rapid.SampledFrom([]string{"1", ".", ".evil", " "}).Draw(t, "extra"), true)
+	case "name-with-port":
+		// the server name itself spells host:port (an allowed entry as a whole); the port field says something else. The
+		// request names the server "host:port" at the port of the field - that is nobody's entry
+		pp := "$P"
+		if port == "$Q" {
+			pp = "$Q"
+		}
+		_ = pp
+		name = nil // filled in when the grid port is known (see c03Name)
+		c.NameWithPort = host
+		c.PortOff += rapid.SampledFrom([]int{0, 1, -1, 99999 - c.PortOff}).Draw(t, "fieldPort")
 	case "high-byte-lookalike":
 		// the allowed name with some code units replaced by units that have the same low byte and a non-zero high byte:
 		// a different name, which no policy lists
@@ -290,6 +302,9 @@ func endpointsOf(hp string) map[string]bool {
 func runC03On(c c03Case, tgt func(user string) gwc.Target, o gwOpts, P int) *Violation {
 	g := theGrid()
 	w := W()
+	if c.NameWithPort != "" {
+		c.Name = u16(c.NameWithPort+":"+strconv.Itoa(P), true)
+	}
 	name, decodable := refName(c)
 	port := c.port(P)
 	hp := net.JoinHostPort(name, strconv.Itoa(port))
